@@ -282,6 +282,7 @@ def answer (cx : Ctx) (toks : List String) : Ctx × List String :=
       | ["delrows", b, c] => some (.delRows (b == "1") (c == "1"))
       | ["delcols", b] => some (.delCols (b == "1"))
       | ["chgkeep"] => some .chgKeepFactor
+      | ["chgbound", k] => some (.chgBound (k == "1"))
       | ["chgmatrix"] => some .chgMatrix
       | ["loadbasis"] => some .loadBasis
       | ["optprimal", st, f] => st.toNat?.map fun n => .optPrimal n (f == "1")
